@@ -2,6 +2,7 @@
    reachable state, i.e. over all interleavings of any number of sending /
    stopping threads with the actor task; the registry invariants; the routing
    theorem of ProcessGroup::send. *)
+From Coq Require Import Permutation.
 From Compio.Model Require Import Base Actor.
 
 (* ---------------------------------------------------------------------- *)
@@ -96,15 +97,15 @@ Ltac fin_lists :=
 Theorem step_inv s e s' : Inv s -> step s e = Some s' -> Inv s'.
 Proof.
   intros [A B C D K L J1 J2] H.
-  destruct s as [cp qu sl st rxx p pa sw ac ha dr re ov la t].
+  destruct s as [cp qu sl st rxx p pa sw ac ha dr re fi ov la t].
   unfold shape in D. cbn [cap queue slot stopping rx pc passed swapped accepted handled drained
-                          released overlap late tr] in *.
+                          released finished overlap late tr] in *.
   unfold step, step_gen in H.
   destruct e;
     unfold log, set_stopping, closed, w_queue, w_slot, w_rx, w_pc, w_passed, w_swapped, w_accepted, w_handled,
-           w_drained, w_released, w_late, w_tr, in_drop_window, drop_receiver in H;
+           w_drained, w_released, w_finished, w_late, w_tr, in_drop_window, drop_receiver in H;
     cbn [cap queue slot stopping rx pc passed swapped accepted handled drained
-         released overlap late tr] in H.
+         released finished overlap late tr] in H.
   - (* ESendClosed *)
     brk H. injection H as <-. constructor; assumption.
   - (* ESendPass *)
@@ -120,7 +121,7 @@ Proof.
       apply andb_true_iff in Hc. destruct Hc as [Hrx _].
       injection H as <-.
       constructor; cbn [cap queue slot stopping rx pc passed swapped accepted handled drained
-                        released overlap late tr].
+                        released finished overlap late tr].
       * rewrite A. rewrite <- !app_assoc. reflexivity.
       * intros Hp. destruct (B Hp) as [-> ->]. split; [reflexivity|].
         destruct p; cbn in Hp; try discriminate; reflexivity.
@@ -170,7 +171,7 @@ Proof.
     + destruct (msg_eqb m x); [|discriminate]. injection H as <-.
       destruct (B eq_refl) as [-> ->].
       constructor; cbn [cap queue slot stopping rx pc passed swapped accepted handled drained
-                        released overlap late tr]; auto.
+                        released finished overlap late tr]; auto.
       * rewrite A. cbn [app]. rewrite <- app_assoc. reflexivity.
       * rewrite C. rewrite app_nil_r. reflexivity.
       * unfold shape. cbn [pc tr handled]. rewrite D, map_app. reflexivity.
@@ -275,7 +276,7 @@ Theorem next_is_head s m q e s' :
   e = ECancel \/
   (e = ESelMsg (Some m) /\ handled s' = handled s ++ [m] /\ queue s' = q /\ pc s' = PHandling m).
 Proof.
-  intros Hp Hq Ha H. destruct s as [cp qu sl st rxx p pa sw ac ha dr re ov la t].
+  intros Hp Hq Ha H. destruct s as [cp qu sl st rxx p pa sw ac ha dr re fi ov la t].
   cbn [pc queue] in Hp, Hq. subst p qu.
   unfold step, step_gen in H.
   destruct e; cbn in Ha; try discriminate Ha; cbn in H; try discriminate H.
@@ -290,7 +291,7 @@ Theorem handler_exclusive s x e s' :
   pc s = PHandling x -> actor_ev e = true -> step s e = Some s' ->
   e = ECancel \/ (e = EHandled x /\ released s' = released s ++ [x]).
 Proof.
-  intros Hp Ha H. destruct s as [cp qu sl st rxx p pa sw ac ha dr re ov la t].
+  intros Hp Ha H. destruct s as [cp qu sl st rxx p pa sw ac ha dr re fi ov la t].
   cbn [pc] in Hp. subst p. unfold step, step_gen in H.
   destruct e; cbn in Ha; try discriminate Ha; cbn in H; try discriminate H.
   - destruct (msg_eqb m x) eqn:E; [|discriminate]. apply msg_eqb_eq in E. subst m.
@@ -319,7 +320,7 @@ Theorem stop_point_prefix c es s s' :
   accepted s' = handled s' ++ queue s' /\ handled s' = handled s.
 Proof.
   intros H Hs. destruct (reachable_inv _ _ _ H) as [A B C D K L J1 J2].
-  destruct s as [cp qu sl st rxx p pa sw ac ha dr re ov la t].
+  destruct s as [cp qu sl st rxx p pa sw ac ha dr re fi ov la t].
   unfold step, step_gen in Hs. cbn in Hs. destruct p; try discriminate Hs.
   destruct sl; [|discriminate]. injection Hs as <-. cbn in *.
   destruct (B eq_refl) as [-> _]. split; [exact A | reflexivity].
@@ -347,7 +348,7 @@ Qed.
 Theorem handlers_inside_loop s m s' :
   step s (ESelMsg (Some m)) = Some s' -> pc s = PSelMsg /\ pc s' = PHandling m.
 Proof.
-  intros H. destruct s as [cp qu sl st rxx p pa sw ac ha dr re ov la t].
+  intros H. destruct s as [cp qu sl st rxx p pa sw ac ha dr re fi ov la t].
   unfold step, step_gen in H. cbn in H. destruct p; try discriminate H.
   destruct qu as [|x q]; [discriminate|].
   destruct (msg_eqb m x) eqn:E; [|discriminate]. apply msg_eqb_eq in E. subst x.
@@ -404,4 +405,501 @@ Proof.
   destruct (call_answered _ _ _ H Hg m Hm) as [Hr|Hl]; [exact Hr|].
   pose proof (late_only_overlap _ _ _ x H (or_intror Hp)) as Hi.
   apply Hi in Hl. rewrite Ho in Hl. destruct Hl.
+Qed.
+
+(* ---------------------------------------------------------------------- *)
+(* Part 2: the registry                                                     *)
+
+Lemma tfind_app n t m v :
+  tfind n (t ++ [(m, v)]) =
+  match tfind n t with Some x => Some x | None => if Nat.eqb m n then Some v else None end.
+Proof.
+  induction t as [|[k w] t IH]; cbn [tfind app].
+  - reflexivity.
+  - destruct (Nat.eqb k n); [reflexivity|exact IH].
+Qed.
+
+Lemma tfind_tset n m v t :
+  tfind n (tset m v t) =
+  if Nat.eqb m n then match tfind m t with Some _ => Some v | None => None end else tfind n t.
+Proof.
+  induction t as [|[k w] t IH]; cbn [tfind tset].
+  - destruct (Nat.eqb m n); reflexivity.
+  - destruct (Nat.eqb k m) eqn:Ekm.
+    + apply Nat.eqb_eq in Ekm. subst k. cbn [tfind].
+      destruct (Nat.eqb m n) eqn:Emn; reflexivity.
+    + cbn [tfind]. destruct (Nat.eqb k n) eqn:Ekn.
+      * apply Nat.eqb_eq in Ekn. subst k.
+        destruct (Nat.eqb m n) eqn:Emn; [|reflexivity].
+        apply Nat.eqb_eq in Emn. subst m. rewrite Nat.eqb_refl in Ekm. discriminate.
+      * exact IH.
+Qed.
+
+Lemma tfind_tremove n m t :
+  tfind n (tremove m t) = if Nat.eqb m n then None else tfind n t.
+Proof.
+  induction t as [|[k w] t IH]; cbn [tfind tremove].
+  - destruct (Nat.eqb m n); reflexivity.
+  - destruct (Nat.eqb k m) eqn:Ekm.
+    + apply Nat.eqb_eq in Ekm. subst k. rewrite IH.
+      destruct (Nat.eqb m n); reflexivity.
+    + cbn [tfind]. destruct (Nat.eqb k n) eqn:Ekn; [|exact IH].
+      apply Nat.eqb_eq in Ekn. subst k.
+      destruct (Nat.eqb m n) eqn:Emn; [|reflexivity].
+      apply Nat.eqb_eq in Emn. subst m. rewrite Nat.eqb_refl in Ekm. discriminate.
+Qed.
+
+Lemma kfind_app a k b n :
+  kfind a (k ++ [(b, n)]) =
+  match kfind a k with Some x => Some x | None => if Nat.eqb b a then Some n else None end.
+Proof.
+  induction k as [|[c m] k IH]; cbn [kfind app].
+  - reflexivity.
+  - destruct (Nat.eqb c a); [reflexivity|exact IH].
+Qed.
+
+Lemma kfind_kremove a b k :
+  kfind a (kremove b k) = if Nat.eqb b a then None else kfind a k.
+Proof.
+  induction k as [|[c m] k IH]; cbn [kfind kremove].
+  - destruct (Nat.eqb b a); reflexivity.
+  - destruct (Nat.eqb c b) eqn:Ecb.
+    + apply Nat.eqb_eq in Ecb. subst c. rewrite IH. destruct (Nat.eqb b a); reflexivity.
+    + cbn [kfind]. destruct (Nat.eqb c a) eqn:Eca; [|exact IH].
+      apply Nat.eqb_eq in Eca. subst c.
+      destruct (Nat.eqb b a) eqn:Eba; [|reflexivity].
+      apply Nat.eqb_eq in Eba. subst b. rewrite Nat.eqb_refl in Ecb. discriminate.
+Qed.
+
+(* holds a n: spawn attempt a holds the Registration of name n *)
+Definition holds (r : rst) (a n : nat) : Prop := kfind a (tokens r) = Some n.
+
+Record RInv (r : rst) : Prop := mk_RInv {
+  (* a name is held by at most one attempt *)
+  rU : forall a b n, holds r a n -> holds r b n -> a = b;
+  (* the name of every token is in the table, reserved or activated by its holder *)
+  rH : forall a n, holds r a n ->
+         tfind n (table r) = Some None \/ tfind n (table r) = Some (Some a);
+  (* every table entry belongs to a token *)
+  rE : forall n v, tfind n (table r) = Some v -> exists a, holds r a n
+}.
+
+Lemma rinit_inv : RInv rinit.
+Proof. constructor; unfold holds; cbn; intros; discriminate. Qed.
+
+Theorem rstep_inv r e r' : RInv r -> rstep r e = Some r' -> RInv r'.
+Proof.
+  intros [U Hh E] H. unfold holds in *. destruct e as [a n ok|a|a|n res]; cbn [rstep] in H.
+  - (* reserve *)
+    destruct (kfind a (tokens r)) eqn:Ka; [discriminate|].
+    destruct (tfind n (table r)) eqn:Tn.
+    + destruct ok; [discriminate|]. injection H as <-. constructor; assumption.
+    + destruct ok; [|discriminate]. injection H as <-.
+      constructor; unfold holds; cbn [tokens table].
+      * intros x y m Hx Hy. rewrite kfind_app in Hx, Hy.
+        destruct (kfind x (tokens r)) eqn:Kx, (kfind y (tokens r)) eqn:Ky.
+        -- injection Hx as ->. injection Hy as ->. eapply U; eauto.
+        -- injection Hx as ->. destruct (Nat.eqb a y) eqn:Ey; [|discriminate].
+           injection Hy as ->. destruct (Hh _ _ Kx) as [T|T]; rewrite T in Tn; discriminate.
+        -- injection Hy as ->. destruct (Nat.eqb a x) eqn:Ex; [|discriminate].
+           injection Hx as ->. destruct (Hh _ _ Ky) as [T|T]; rewrite T in Tn; discriminate.
+        -- destruct (Nat.eqb a x) eqn:Ex; [|discriminate].
+           destruct (Nat.eqb a y) eqn:Ey; [|discriminate].
+           apply Nat.eqb_eq in Ex, Ey. congruence.
+      * intros x m Hx. rewrite kfind_app in Hx. rewrite tfind_app.
+        destruct (kfind x (tokens r)) eqn:Kx.
+        -- injection Hx as ->. destruct (Hh _ _ Kx) as [T|T]; rewrite T; [left|right]; reflexivity.
+        -- destruct (Nat.eqb a x) eqn:Ex; [|discriminate]. injection Hx as ->.
+           rewrite Tn, Nat.eqb_refl. left. reflexivity.
+      * intros m v Hm. rewrite tfind_app in Hm.
+        destruct (tfind m (table r)) eqn:Tm.
+        -- destruct (E _ _ Tm) as [x Hx]. exists x. rewrite kfind_app, Hx. reflexivity.
+        -- destruct (Nat.eqb n m) eqn:Enm; [|discriminate]. apply Nat.eqb_eq in Enm. subst m.
+           exists a. rewrite kfind_app, Ka, Nat.eqb_refl. reflexivity.
+  - (* activate *)
+    destruct (kfind a (tokens r)) as [n|] eqn:Ka; [|discriminate].
+    destruct (tfind n (table r)) eqn:Tn; [|discriminate]. injection H as <-.
+    constructor; unfold holds; cbn [tokens table].
+    + exact U.
+    + intros x m Hx. rewrite tfind_tset. destruct (Nat.eqb n m) eqn:Enm.
+      * apply Nat.eqb_eq in Enm. subst m. rewrite Tn. right.
+        rewrite (U _ _ _ Hx Ka). reflexivity.
+      * apply Hh. exact Hx.
+    + intros m v Hm. rewrite tfind_tset in Hm. destruct (Nat.eqb n m) eqn:Enm.
+      * apply Nat.eqb_eq in Enm. subst m. exists a. exact Ka.
+      * eapply E; eauto.
+  - (* release *)
+    destruct (kfind a (tokens r)) as [n|] eqn:Ka; [|discriminate]. injection H as <-.
+    constructor; unfold holds; cbn [tokens table].
+    + intros x y m Hx Hy. rewrite kfind_kremove in Hx, Hy.
+      destruct (Nat.eqb a x); [discriminate|]. destruct (Nat.eqb a y); [discriminate|].
+      eapply U; eauto.
+    + intros x m Hx. rewrite kfind_kremove in Hx. rewrite tfind_tremove.
+      destruct (Nat.eqb a x) eqn:Eax; [discriminate|].
+      destruct (Nat.eqb n m) eqn:Enm.
+      * apply Nat.eqb_eq in Enm. subst m. rewrite (U _ _ _ Hx Ka), Nat.eqb_refl in Eax.
+        discriminate.
+      * apply Hh. exact Hx.
+    + intros m v Hm. rewrite tfind_tremove in Hm.
+      destruct (Nat.eqb n m) eqn:Enm; [discriminate|].
+      destruct (E _ _ Hm) as [x Hx]. exists x. rewrite kfind_kremove.
+      destruct (Nat.eqb a x) eqn:Eax; [|exact Hx].
+      apply Nat.eqb_eq in Eax. subst x. rewrite Ka in Hx. injection Hx as ->.
+      rewrite Nat.eqb_refl in Enm. discriminate.
+  - (* lookup *)
+    destruct (lookup r n), res; try discriminate.
+    + destruct (Nat.eqb n0 n1); [|discriminate]. injection H as <-. constructor; assumption.
+    + injection H as <-. constructor; assumption.
+Qed.
+
+Theorem rsteps_inv : forall es r r', RInv r -> rsteps r es = Some r' -> RInv r'.
+Proof.
+  induction es as [|e es IH]; intros r r' Hi Hs; cbn [rsteps] in Hs.
+  - injection Hs as <-. exact Hi.
+  - destruct (rstep r e) as [r1|] eqn:H1; [|discriminate].
+    eapply IH; [eapply rstep_inv; eauto | exact Hs].
+Qed.
+
+Theorem rreachable_inv es r : rsteps rinit es = Some r -> RInv r.
+Proof. intros H. eapply rsteps_inv; [apply rinit_inv | exact H]. Qed.
+
+(* a name maps to at most one live actor, and a lookup only ever returns the
+   actor that holds the name *)
+Theorem names_unique es r a b n :
+  rsteps rinit es = Some r -> holds r a n -> holds r b n -> a = b.
+Proof. intros H. exact (rU _ (rreachable_inv _ _ H) a b n). Qed.
+
+Theorem lookup_is_holder es r n a :
+  rsteps rinit es = Some r -> lookup r n = Some a -> holds r a n.
+Proof.
+  intros H Hl. destruct (rreachable_inv _ _ H) as [U Hh E]. unfold lookup in Hl.
+  destruct (tfind n (table r)) as [[x|]|] eqn:Tn; try discriminate. injection Hl as ->.
+  destruct (E _ _ Tn) as [b Hb]. destruct (Hh _ _ Hb) as [T|T]; rewrite T in Tn; try discriminate.
+  injection Tn as ->. exact Hb.
+Qed.
+
+(* invisible until start-up succeeded: a name becomes visible only by the
+   activation step of its holder (after pre_start returned Ok) *)
+Theorem visible_only_by_activation r e r' n a :
+  rstep r e = Some r' -> lookup r' n = Some a -> lookup r n = Some a \/ e = RActivate a.
+Proof.
+  intros H Hl. unfold lookup in *. destruct e as [x m ok|x|x|m res]; cbn [rstep] in H.
+  - destruct (kfind x (tokens r)); [discriminate|].
+    destruct (tfind m (table r)) eqn:Tm.
+    + destruct ok; [discriminate|]. injection H as <-. left. exact Hl.
+    + destruct ok; [|discriminate]. injection H as <-. cbn [table] in Hl.
+      rewrite tfind_app in Hl. destruct (tfind n (table r)) as [v|]; [left; exact Hl|].
+      destruct (Nat.eqb m n); discriminate.
+  - destruct (kfind x (tokens r)) as [m|] eqn:Kx; [|discriminate].
+    destruct (tfind m (table r)) eqn:Tm; [|discriminate]. injection H as <-.
+    cbn [table] in Hl. rewrite tfind_tset in Hl. destruct (Nat.eqb m n) eqn:Emn.
+    + rewrite Tm in Hl. injection Hl as ->. right. reflexivity.
+    + left. exact Hl.
+  - destruct (kfind x (tokens r)) as [m|]; [|discriminate]. injection H as <-.
+    cbn [table] in Hl. rewrite tfind_tremove in Hl.
+    destruct (Nat.eqb m n); [discriminate|]. left. exact Hl.
+  - fold (lookup r m) in H. destruct (lookup r m), res; try discriminate.
+    + destruct (Nat.eqb n0 n1); [|discriminate]. injection H as <-. left. exact Hl.
+    + injection H as <-. left. exact Hl.
+Qed.
+
+Theorem reserved_is_invisible r a n r' :
+  rstep r (RReserve a n true) = Some r' -> lookup r' n = None /\ holds r' a n.
+Proof.
+  intros H. cbn [rstep] in H. destruct (kfind a (tokens r)) eqn:Ka; [discriminate|].
+  destruct (tfind n (table r)) eqn:Tn; [discriminate|]. injection H as <-.
+  unfold lookup, holds. cbn [table tokens]. rewrite tfind_app, Tn, Nat.eqb_refl.
+  split; [reflexivity|]. rewrite kfind_app, Ka, Nat.eqb_refl. reflexivity.
+Qed.
+
+(* free again after exit or failed start (both drop the Registration) *)
+Theorem released_is_free r a n r' :
+  holds r a n -> rstep r (RRelease a) = Some r' ->
+  lookup r' n = None /\ kfind a (tokens r') = None /\
+  (forall b, kfind b (tokens r') = None ->
+             exists r'', rstep r' (RReserve b n true) = Some r'').
+Proof.
+  intros Ha Hs. unfold holds in Ha. cbn [rstep] in Hs. rewrite Ha in Hs.
+  injection Hs as <-. unfold lookup. cbn [table tokens].
+  rewrite tfind_tremove, Nat.eqb_refl. split; [reflexivity|].
+  split; [rewrite kfind_kremove, Nat.eqb_refl; reflexivity|].
+  intros b Hb. cbn [rstep tokens table]. rewrite Hb, tfind_tremove, Nat.eqb_refl.
+  eexists. reflexivity.
+Qed.
+
+(* the release is always possible for a holder, and activation never hits the
+   "registration disappeared" panic *)
+Theorem holder_can_activate es r a n :
+  rsteps rinit es = Some r -> holds r a n ->
+  exists r', rstep r (RActivate a) = Some r' /\ lookup r' n = Some a.
+Proof.
+  intros H Ha. destruct (rreachable_inv _ _ H) as [U Hh E]. unfold holds in Ha.
+  cbn [rstep]. rewrite Ha. destruct (Hh _ _ Ha) as [T|T]; rewrite T;
+    (eexists; split; [reflexivity|]); unfold lookup; cbn [table];
+    rewrite tfind_tset, Nat.eqb_refl, T; reflexivity.
+Qed.
+
+(* ---------------------------------------------------------------------- *)
+(* Part 3: ProcessGroup::send                                               *)
+
+Definition rot (idx : nat) (ms : list nat) : list nat := skipn idx ms ++ firstn idx ms.
+
+Lemma skipn_nth_cons (ms : list nat) idx :
+  idx < length ms -> skipn idx ms = nth idx ms 0 :: skipn (S idx) ms.
+Proof.
+  revert idx; induction ms as [|x ms IH]; intros idx H; cbn [length] in H; [lia|].
+  destruct idx as [|idx]; [reflexivity|]. cbn [skipn nth]. apply IH. lia.
+Qed.
+
+Lemma firstn_S_snoc (ms : list nat) idx :
+  idx < length ms -> firstn (S idx) ms = firstn idx ms ++ [nth idx ms 0].
+Proof.
+  revert idx; induction ms as [|x ms IH]; intros idx H; cbn [length] in H; [lia|].
+  destruct idx as [|idx]; [reflexivity|]. cbn [firstn nth app]. f_equal. apply IH. lia.
+Qed.
+
+Lemma rot_head ms idx :
+  idx < length ms -> rot idx ms = nth idx ms 0 :: (skipn (S idx) ms ++ firstn idx ms).
+Proof. intros H. unfold rot. rewrite (skipn_nth_cons _ _ H). reflexivity. Qed.
+
+Lemma rot_step_full ms idx :
+  idx < length ms ->
+  rot ((idx + 1) mod length ms) ms = (skipn (S idx) ms ++ firstn idx ms) ++ [nth idx ms 0].
+Proof.
+  intros H. unfold rot. destruct (Nat.eq_dec (S idx) (length ms)) as [E|E].
+  - replace (idx + 1) with (length ms) by lia. rewrite Nat.mod_same by lia.
+    change (skipn 0 ms) with ms. change (firstn 0 ms) with (@nil nat). rewrite app_nil_r.
+    rewrite E. rewrite skipn_all. cbn [app].
+    rewrite <- (firstn_S_snoc _ _ H), E, firstn_all. reflexivity.
+  - rewrite Nat.mod_small by lia. replace (idx + 1) with (S idx) by lia.
+    rewrite (firstn_S_snoc _ _ H). rewrite app_assoc. reflexivity.
+Qed.
+
+Lemma remove_at_length ms idx : idx < length ms -> length (remove_at idx ms) = length ms - 1.
+Proof.
+  intros H. unfold remove_at. rewrite app_length, firstn_length, skipn_length. lia.
+Qed.
+
+Lemma rot_step_closed ms idx :
+  idx < length ms -> remove_at idx ms <> [] ->
+  rot (idx mod length (remove_at idx ms)) (remove_at idx ms) = skipn (S idx) ms ++ firstn idx ms.
+Proof.
+  intros H Hne. pose proof (remove_at_length _ _ H) as Hl.
+  assert (Hpos : length (remove_at idx ms) <> 0).
+  { destruct (remove_at idx ms); [congruence|cbn; lia]. }
+  assert (Hf : length (firstn idx ms) = idx) by (rewrite firstn_length; lia).
+  unfold rot. destruct (Nat.eq_dec (S idx) (length ms)) as [E|E].
+  - replace (length (remove_at idx ms)) with idx by lia. rewrite Nat.mod_same by lia.
+    change (skipn 0 (remove_at idx ms)) with (remove_at idx ms).
+    change (firstn 0 (remove_at idx ms)) with (@nil nat). rewrite app_nil_r. unfold remove_at.
+    rewrite E, skipn_all. rewrite app_nil_r. reflexivity.
+  - rewrite Nat.mod_small by lia. unfold remove_at.
+    rewrite <- (Nat.add_0_r idx) at 1.
+    rewrite skipn_app, Hf. replace (idx + 0 - idx) with 0 by lia. cbn [skipn].
+    rewrite Nat.add_0_r. rewrite skipn_all2 by lia. cbn [app].
+    rewrite firstn_app, Hf. replace (idx - idx) with 0 by lia. cbn [firstn].
+    rewrite app_nil_r. rewrite firstn_all2 by lia. reflexivity.
+Qed.
+
+Lemma rot_In ms idx j : In j (rot idx ms) <-> In j ms.
+Proof.
+  unfold rot. rewrite <- (firstn_skipn idx ms) at 3. rewrite !in_app_iff. tauto.
+Qed.
+
+Lemma remove_at_In ms idx j :
+  idx < length ms -> NoDup ms ->
+  (In j (remove_at idx ms) <-> In j ms /\ j <> nth idx ms 0).
+Proof.
+  intros H Hn. rewrite <- (firstn_skipn idx ms) in Hn.
+  rewrite (skipn_nth_cons _ _ H) in Hn.
+  pose proof (NoDup_remove_2 _ _ _ Hn) as Hnot.
+  unfold remove_at. rewrite <- (firstn_skipn idx ms) at 3.
+  rewrite (skipn_nth_cons _ _ H). rewrite !in_app_iff. cbn [In].
+  rewrite in_app_iff in Hnot. split.
+  - intros Hj. split; [tauto|]. intros ->. tauto.
+  - intros [[Hj|[Hj|Hj]] Hne]; [left; exact Hj | congruence | right; exact Hj].
+Qed.
+
+Lemma remove_at_NoDup ms idx : idx < length ms -> NoDup ms -> NoDup (remove_at idx ms).
+Proof.
+  intros H Hn. rewrite <- (firstn_skipn idx ms) in Hn.
+  rewrite (skipn_nth_cons _ _ H) in Hn. apply NoDup_remove_1 in Hn. exact Hn.
+Qed.
+
+(* the loop visits the members in cyclic order starting at idx: U = the
+   members not yet tried (in the order they will be tried), F = those that were
+   full.  V = what this run of the loop tries. *)
+Lemma gloop_spec out : forall att ms idx sawf tried U F,
+  NoDup ms -> (ms <> [] -> idx < length ms) -> rot idx ms = U ++ F -> length U = att ->
+  forall r ms' tried', gloop out att ms idx sawf tried = (r, ms', tried') ->
+  exists V W, U = V ++ W /\ tried' = tried ++ V /\ NoDup ms' /\
+    (forall j, In j ms' <-> In j ms /\ ~ (In j V /\ out j = MClosed)) /\
+    match r with
+    | GDelivered i => exists V0, V = V0 ++ [i] /\ out i = MOk /\ forall j, In j V0 -> out j <> MOk
+    | GBack f => W = [] /\ (forall j, In j V -> out j <> MOk) /\
+                 (f = true <-> sawf = true \/ exists j, In j V /\ out j = MFull)
+    end.
+Proof.
+  induction att as [|att IH]; intros ms idx sawf tried U F Hn Hidx Hrot HU r ms' tried' H;
+    cbn [gloop] in H.
+  - injection H as <- <- <-. destruct U; [|discriminate HU].
+    exists [], []. split; [reflexivity|]. split; [rewrite app_nil_r; reflexivity|].
+    split; [exact Hn|]. split; [intros j; cbn; tauto|].
+    split; [reflexivity|]. split; [intros j []|].
+    split; [intros ->; left; reflexivity | intros [Hs|(j & [] & _)]; exact Hs].
+  - destruct U as [|i U']; [discriminate HU|]. injection HU as HU.
+    destruct ms as [|m0 ms0] eqn:Ems.
+    { unfold rot in Hrot. rewrite skipn_nil, firstn_nil in Hrot. discriminate Hrot. }
+    rewrite <- Ems in *. assert (Hne : ms <> []) by (rewrite Ems; discriminate).
+    specialize (Hidx Hne). rewrite (rot_head _ _ Hidx) in Hrot.
+    injection Hrot as Hi Hrest.
+    change (match ms with [] => [] | _ :: l => skipn idx l end) with (skipn (S idx) ms) in Hrest.
+    rewrite Hi in *.
+    destruct (out i) eqn:Eo.
+    + (* delivered *)
+      injection H as <- <- <-. exists [i], U'. split; [reflexivity|]. split; [reflexivity|].
+      split; [exact Hn|]. split.
+      { intros j. split; [intros Hj; split; [exact Hj|]|intros [Hj _]; exact Hj].
+        intros [[<-|[]] Hc]. congruence. }
+      exists []. split; [reflexivity|]. split; [exact Eo|]. intros j [].
+    + (* full *)
+      assert (Hrot' : rot ((idx + 1) mod length ms) ms = U' ++ (F ++ [i])).
+      { rewrite (rot_step_full _ _ Hidx), Hi, Hrest, app_assoc. reflexivity. }
+      assert (Hidx' : ms <> [] -> (idx + 1) mod length ms < length ms).
+      { intros _. apply Nat.mod_upper_bound. lia. }
+      destruct (IH ms _ true (tried ++ [i]) U' (F ++ [i]) Hn Hidx' Hrot' HU _ _ _ H)
+        as (V & W & HV & Ht & Hn' & Hms & Hr).
+      exists (i :: V), W. split; [cbn [app]; rewrite HV; reflexivity|].
+      split; [rewrite Ht, <- app_assoc; reflexivity|]. split; [exact Hn'|]. split.
+      { intros j. rewrite Hms. cbn [In]. split; intros [Hj Hc]; (split; [exact Hj|]).
+        - intros [[<-|Hv] Hcl]; [congruence|]. apply Hc. split; assumption.
+        - intros [Hv Hcl]. apply Hc. split; [right; exact Hv | exact Hcl]. }
+      destruct r as [d|f].
+      * destruct Hr as (V0 & -> & Hd & Hall). exists (i :: V0). split; [reflexivity|].
+        split; [exact Hd|]. intros j [<-|Hj]; [congruence|apply Hall; exact Hj].
+      * destruct Hr as (-> & Hall & Hf). split; [reflexivity|].
+        split; [intros j [<-|Hj]; [congruence|apply Hall; exact Hj]|].
+        rewrite Hf. split.
+        -- intros [_|(j & Hj & Hfj)]; right; [exists i; split; [left; reflexivity|exact Eo]|].
+           exists j. split; [right; exact Hj|exact Hfj].
+        -- intros _. left. reflexivity.
+    + (* closed: the member is evicted *)
+      set (ms1 := remove_at idx ms) in *.
+      assert (Hn1 : NoDup ms1) by (apply remove_at_NoDup; assumption).
+      assert (Hin1 : forall j, In j ms1 <-> In j ms /\ j <> i).
+      { intros j. unfold ms1. rewrite (remove_at_In _ _ j Hidx Hn), Hi. reflexivity. }
+      assert (Hgo : exists V W, U' = V ++ W /\ tried' = (tried ++ [i]) ++ V /\ NoDup ms' /\
+                (forall j, In j ms' <-> In j ms1 /\ ~ (In j V /\ out j = MClosed)) /\
+                match r with
+                | GDelivered d => exists V0, V = V0 ++ [d] /\ out d = MOk /\
+                                             forall j, In j V0 -> out j <> MOk
+                | GBack f => W = [] /\ (forall j, In j V -> out j <> MOk) /\
+                             (f = true <-> sawf = true \/ exists j, In j V /\ out j = MFull)
+                end).
+      { destruct ms1 as [|m1 ms1'] eqn:E1.
+        - (* nobody left *)
+          assert (HU' : U' = []).
+          { assert (Hl : length (remove_at idx ms) = 0) by (fold ms1; rewrite E1; reflexivity).
+            rewrite (remove_at_length _ _ Hidx) in Hl.
+            assert (Hlen : length (skipn (S idx) ms ++ firstn idx ms) = 0).
+            { rewrite app_length, skipn_length, firstn_length. lia. }
+            rewrite Hrest in Hlen. destruct U'; [reflexivity|cbn in Hlen; lia]. }
+          subst U'. cbn [length] in HU. subst att. cbn [gloop] in H. injection H as <- <- <-.
+          exists [], []. split; [reflexivity|]. split; [rewrite app_nil_r; reflexivity|].
+          split; [constructor|]. split; [intros j; cbn; tauto|].
+          split; [reflexivity|]. split; [intros j []|].
+          split; [intros ->; left; reflexivity | intros [Hs|(j & [] & _)]; exact Hs].
+        - rewrite <- E1 in *. assert (Hne1 : ms1 <> []) by (rewrite E1; discriminate).
+          assert (Hrot' : rot (idx mod length ms1) ms1 = U' ++ F).
+          { unfold ms1. rewrite (rot_step_closed _ _ Hidx Hne1). exact Hrest. }
+          assert (Hidx' : ms1 <> [] -> idx mod length ms1 < length ms1).
+          { intros _. apply Nat.mod_upper_bound. destruct ms1; [congruence|cbn; lia]. }
+          exact (IH ms1 _ sawf (tried ++ [i]) U' F Hn1 Hidx' Hrot' HU _ _ _ H). }
+      destruct Hgo as (V & W & HV & Ht & Hn' & Hms & Hr).
+      exists (i :: V), W. split; [cbn [app]; rewrite HV; reflexivity|].
+      split; [rewrite Ht, <- app_assoc; reflexivity|]. split; [exact Hn'|]. split.
+      { intros j. rewrite Hms, Hin1. cbn [In]. split.
+        - intros [[Hj Hnej] Hc]. split; [exact Hj|]. intros [[Hx|Hv] Hcl]; [congruence|].
+          apply Hc. split; assumption.
+        - intros [Hj Hc]. split; [split; [exact Hj|]|].
+          + intros ->. apply Hc. split; [left; reflexivity|exact Eo].
+          + intros [Hv Hcl]. apply Hc. split; [right; exact Hv|exact Hcl]. }
+      destruct r as [d|f].
+      * destruct Hr as (V0 & -> & Hd & Hall). exists (i :: V0). split; [reflexivity|].
+        split; [exact Hd|]. intros j [<-|Hj]; [congruence|apply Hall; exact Hj].
+      * destruct Hr as (-> & Hall & Hf). split; [reflexivity|].
+        split; [intros j [<-|Hj]; [congruence|apply Hall; exact Hj]|].
+        rewrite Hf. split.
+        -- intros [Hs|(j & Hj & Hfj)]; [left; exact Hs|right].
+           exists j. split; [right; exact Hj|exact Hfj].
+        -- intros [Hs|(j & [<-|Hj] & Hfj)]; [left; exact Hs|congruence|right].
+           exists j. split; assumption.
+Qed.
+
+Lemma rot_length ms idx : length (rot idx ms) = length ms.
+Proof.
+  unfold rot. rewrite app_length, Nat.add_comm, <- app_length, firstn_skipn. reflexivity.
+Qed.
+
+Lemma rot_NoDup ms idx : NoDup ms -> NoDup (rot idx ms).
+Proof.
+  intros H. unfold rot. rewrite <- (firstn_skipn idx ms) in H.
+  eapply Permutation_NoDup; [apply Permutation_app_comm | exact H].
+Qed.
+
+Lemma NoDup_app_l {A} (a b : list A) : NoDup (a ++ b) -> NoDup a.
+Proof.
+  induction a as [|x a IH]; intros H; [constructor|]. cbn [app] in H.
+  inversion H as [|? ? Hx Hr]; subst. constructor; [|apply IH; exact Hr].
+  intros Hin. apply Hx. apply in_or_app. left. exact Hin.
+Qed.
+
+(* the routing theorem: for every member list without duplicates, every cursor
+   and every behaviour of the members *)
+Theorem group_route out ms cursor r ms' cur' tried :
+  NoDup ms -> gsend out ms cursor = (r, ms', cur', tried) ->
+  length tried <= length ms /\ NoDup tried /\ incl tried ms /\ NoDup ms' /\
+  (forall j, In j ms' <-> In j ms /\ ~ (In j tried /\ out j = MClosed)) /\
+  match r with
+  | GDelivered i =>
+    In i ms /\ out i = MOk /\
+    exists before, tried = before ++ [i] /\ forall j, In j before -> out j <> MOk
+  | GBack full =>
+    (forall j, In j ms -> out j <> MOk) /\ (forall j, In j ms -> In j tried) /\
+    (full = true <-> exists j, In j ms /\ out j = MFull)
+  end.
+Proof.
+  intros Hn H. unfold gsend in H. destruct ms as [|m0 ms0] eqn:Ems.
+  - injection H as <- <- <- <-. split; [cbn; lia|]. split; [constructor|].
+    split; [intros j []|]. split; [constructor|]. split; [intros j; cbn; tauto|].
+    split; [intros j []|]. split; [intros j []|].
+    split; [discriminate | intros (j & [] & _)].
+  - rewrite <- Ems in *. assert (Hne : ms <> []) by (rewrite Ems; discriminate).
+    assert (Hlen : length ms <> 0) by (rewrite Ems; cbn; lia).
+    destruct (gloop out (length ms) ms (cursor mod length ms) false []) as [[r0 ms1] tr1] eqn:Hg.
+    injection H as <- <- <- <-.
+    assert (Hidx : ms <> [] -> cursor mod length ms < length ms).
+    { intros _. apply Nat.mod_upper_bound. exact Hlen. }
+    destruct (gloop_spec out (length ms) ms _ false [] (rot (cursor mod length ms) ms) []
+                Hn Hidx (eq_sym (app_nil_r _)) (rot_length _ _) _ _ _ Hg)
+      as (V & W & HU & Ht & Hn' & Hms & Hr).
+    cbn [app] in Ht. subst tr1.
+    pose proof (rot_NoDup ms (cursor mod length ms) Hn) as HnU. rewrite HU in HnU.
+    assert (HinV : forall j, In j V -> In j ms).
+    { intros j Hj. apply (rot_In ms (cursor mod length ms)). rewrite HU.
+      apply in_or_app. left. exact Hj. }
+    split.
+    { rewrite <- (rot_length ms (cursor mod length ms)), HU, app_length. lia. }
+    split; [eapply NoDup_app_l; exact HnU|]. split; [exact HinV|]. split; [exact Hn'|].
+    split; [exact Hms|]. destruct r0 as [i|f].
+    + destruct Hr as (V0 & -> & Hd & Hall). split.
+      { apply HinV. apply in_or_app. right. left. reflexivity. }
+      split; [exact Hd|]. exists V0. split; [reflexivity|exact Hall].
+    + destruct Hr as (-> & Hall & Hf). rewrite app_nil_r in HU.
+      assert (Hall' : forall j, In j ms -> In j V).
+      { intros j Hj. rewrite <- HU. apply rot_In. exact Hj. }
+      split; [intros j Hj; apply Hall, Hall'; exact Hj|]. split; [exact Hall'|].
+      rewrite Hf. split.
+      * intros [Hx|(j & Hj & Hfj)]; [discriminate|]. exists j. split; [apply HinV; exact Hj|exact Hfj].
+      * intros (j & Hj & Hfj). right. exists j. split; [apply Hall'; exact Hj|exact Hfj].
 Qed.
